@@ -5,6 +5,7 @@ import Driver.SlotMap
 import Driver.FlatMap
 import Driver.Str
 import Driver.Alloc
+import Driver.Names
 open Driver
 
 partial def loop (c : Comp) (hin hout : IO.FS.Stream) (s : c.σ) (buf : String) (n : Nat) : IO Unit := do
@@ -31,7 +32,8 @@ def components : List (String × Comp) := [
   ("slotmap", SlotMapD.comp),
   ("flatmap", FlatMapD.comp),
   ("string", StrD.comp),
-  ("alloc", AllocD.comp)
+  ("alloc", AllocD.comp),
+  ("names", NamesD.comp)
 ]
 
 def main (args : List String) : IO UInt32 := do
